@@ -110,9 +110,13 @@ def gen_model(rng, near_tie=False, big=False):
         ce = F(1) if rng.random() < 0.8 else rng.choice([F(-1), F(2), F(1, 2)])
         cov = F(rng.randint(0, 600), 100) if rng.random() < 0.5 else F(rng.randint(0, 12), 2)
         lb = ub = None
-        if rng.random() < 0.12:
+        r_ = rng.random()
+        if r_ < 0.12:
             L = rng.choice([2, 5, 8])
             lb, ub = F(-L), F(L)
+        elif r_ < 0.24:
+            # a one-sided error term (addVar's own default is lb = 0): its absolute value still needs both rows of abssum
+            lb, ub = rng.choice([(F(0), None), (None, F(0)), (F(0), F(rng.choice([3, 6]))), (F(-rng.choice([3, 6])), F(0))])
         eq.append({"co": co, "ce": ce, "cov": cov, "lb": lb, "ub": ub})
     rows = []
     if rng.random() < 0.85:           # cardinality
